@@ -234,6 +234,9 @@ def compare(ex, st: State, op, a: V, b: V, node):
 
 
 def contains(ex, st: State, cont: V, item: V, node):
+    mm = getattr(ex.ctx, 'membership', {}).get(cont.path) if cont.path else None
+    if mm is not None:
+        return [(st, mm(st, st.box(item)))]
     cont = ex.concrete_kind(st, cont, ('ref', 'str', 'bytes'))
     d = ex.dunder(st, cont, '__contains__')
     if d is not None:
@@ -269,7 +272,7 @@ def contains(ex, st: State, cont: V, item: V, node):
             return [(st, z3.Contains(st.list_seq(cont), z3.Unit(st.box(item))))]
     if ex.ctx.opaque_ok:
         return [(st, fresh(BoolS, 'in'))]
-    raise Unsupported(f'membership in {cont.kind}/{cont.cls}')
+    raise Unsupported(f'membership in {cont.kind}/{cont.cls} (path {cont.path})')
 
 
 # ---------------------------------------------------------------------------------------------------------------
